@@ -237,6 +237,9 @@ func main() {
 					}
 				}
 				for _, w := range wrappers {
+					if w.name == "crowded" && len(seq) > 3 {
+						continue // 36 directive lines of its own: kept to sequences of <= 3 generated lines
+					}
 					body := ""
 					for _, s := range seq {
 						if syms[s] == "" {
